@@ -159,7 +159,7 @@ def _split():
                              6: {"push": (5, 6), "change_priority": (1, 5), "remove": (1, 4)}}
                     if n in sel_q and k not in sel_q[n][op]:
                         t = THOROUGH
-                    if kind == "dq" and n in (5, 7) and op == "change_priority" and k == 0:
+                    if kind == "dq" and n == 5 and op == "change_priority" and k == 0:
                         t = QUICK
                     step(op, kind, n, "inv", "or", {op_: t}, tables=f"idk{k}", grow=grow,
                          cost=(40 if kind == "dq" else 10) * n)
@@ -180,7 +180,7 @@ def _split():
             tt = t
             if (n, op) in ((13, "pop_lo"), (20, "pop_hi")):
                 tt = QUICK
-            if n == 8 and op in ("pop_lo", "pop_lo_if"):
+            if n == 8 and op == "pop_lo":
                 tt = QUICK
             # sorted consumption is a chain of these extractions (C06)
             step(op, "dq", n, "inv", "or", {"C02": tt, "C08": tt if op == "pop_lo_if" else None,
@@ -201,10 +201,10 @@ def _split():
         for op, grow, keys in (("push", 1, (n,)), ("change_priority", 0, (0, 3, n - 1)), ("remove", 0, (0, 1, 7))):
             for k in keys:
                 step(op, "pq", n, "inv", "or", {"C01": QUICK if n == 15 else THOROUGH}, tables=f"idk{k}", grow=grow, cost=200, mem=4)
-    # every length from 3 to 8 sees an update of the ROOT in the quick tier (a candidate list of
+    # lengths 3 to 6 see an update of the ROOT in the quick tier, 7 and 8 in the thorough one (a candidate list of
     # the trickle-down that is wrong for one particular length, seed C02-e: len == 4i + 5)
     # (n = 5, 7: the position split below puts key 0 of change_priority into the quick tier)
-    step("change_priority", "dq", 8, "inv", "or", {"C02": QUICK}, tables="idk0", cost=320)
+    step("change_priority", "dq", 8, "inv", "or", {"C02": THOROUGH}, tables="idk0", cost=320)
     # push_increase / push_decrease at a min-level node that has a child (position 3 of 8) and at
     # a max-level node (position 1)
     for op in ("push_increase", "push_decrease"):
